@@ -459,3 +459,6 @@ def run(ctx):
                         "post_names": e["post"]["names"]}, limit=8)
     ctx.evaluations += total
     ctx.extra["trace_events"] = total
+    # growth next to C01: the feature table when the list of observations is edited between feature operations (TrackEdit.tla)
+    from drivers import trackedit_common
+    trackedit_common.run(ctx, ctx.tier == "quick")
